@@ -112,6 +112,10 @@ class Pred:
             return (("and" if n.attr == "And" else "or"),) + parts
         if op == "UnaryOp" and n.attr in ("Invert", "Not"):
             return ("not", self.formula(n.args[0]))
+        if op == "Phi" and self._boolish(n.args[1]) and self._boolish(n.args[2]):
+            # a truth value chosen by a decision (`return False` early, else the test): (c and a) or (not c and b)
+            c, a, b = (self.formula(x) for x in n.args)
+            return ("or", ("and", c, a), ("and", ("not", c), b))
         if op == "Scatter" and n.attr is None and n.args[2].op == "Const" and isinstance(n.args[2].attr, bool):
             # m[c] = False  is  m & ~c ;  m[c] = True  is  m | c   (element-wise, c a mask over the same elements)
             base, cnd = self.formula(n.args[0]), self.formula(n.args[1])
@@ -129,6 +133,17 @@ class Pred:
         if op == "MCall" and n.attr[0] in ("copy", "astype") and n.args:
             return self.formula(n.args[0])
         return self._atom("o", n)
+
+    def _boolish(self, n: Node, depth=0) -> bool:
+        if n.op == "Const":
+            return isinstance(n.attr, bool)
+        if n.op in ("Compare", "IsInstance", "BoolOp"):
+            return True
+        if n.op == "UnaryOp":
+            return n.attr == "Not"
+        if n.op == "Phi" and depth < 6:
+            return self._boolish(n.args[1], depth + 1) and self._boolish(n.args[2], depth + 1)
+        return False
 
     # ------------------------------------------------------------------ decision
     def atoms_of(self, f, acc=None) -> List[tuple]:
